@@ -6,6 +6,39 @@ NOTE_COMMON = ("Trusted: Coq 8.16.1 kernel + vm_compute; no axioms (Print Assump
                "both guarded by the differential correspondence; Python oracles and harness.")
 
 CHECKS = {
+ "C01": dict(
+   engine="coq-codec",
+   technique="Coq proof: RFC 6733 layout and round-trip theorems over a byte-level model (unbounded payloads), exhaustive dictionary table obligations by vm_compute; differential correspondence on every dictionary entry",
+   text=("Theorems (Props/C01.v): enc_avp is exactly the RFC 6733 4.1 layout, length/padding/V-bit facts, dec(enc a ++ rest) = (a, rest), "
+         "re-encoding a decoded well-formed wire AVP reproduces the bytes, value-level round trips and rejections for every type "
+         "(two's-complement ints, strict UTF-8 both directions, NTP-era Time with the 2036 rollover, Address family prefix), all for "
+         "unbounded sizes. Known finding C01-time-wrap is carried as C01_time_rejects_refuted + _partial. Dictionary obligations "
+         "(Link/LinkDict.v): every entry consistent and reachable, exhaustive. Tie: dictionary/constants regenerated each run; the model is "
+         "evaluated in Coq on ~6.4k (quick) cases covering every (code,vendor) entry and compared with the implementation and an "
+         "independent RFC reference encoder."),
+   design_ref="DESIGN.md section 6 C01",
+   note=NOTE_COMMON + " Modelled, not verified: inet_pton/ntop text forms, datetime<->seconds, double<->bits inside struct (observed by correspondence only)."),
+ "C02": dict(
+   engine="coq-codec",
+   technique="Coq proof: header/message round-trip theorems, dispatch lemma for any registry + exhaustive registry table obligations (vm_compute); differential correspondence incl. find_avps sequences",
+   text=("Theorems (Props/C02.v): header is the RFC layout and round-trips in both directions for all field values; the length field equals "
+         "the byte count; generic decode of an encoded message returns the same header and AVP sequence (any number of AVPs); decoded "
+         "flags are the received flags; class dispatch for ANY registry. Link/LinkRegistry.v: for every registered command code the "
+         "<Base>Request/<Base>Answer rule and forced command codes hold (exhaustive). find_avps = declarative path search and cache "
+         "transparency: Proofs/FindP.v. Correspondence: every registered code x R bit, unknown codes, messages up to 64 KiB, typed and "
+         "plain decode, re-encode, path sequences, all evaluated by the Coq model."),
+   design_ref="DESIGN.md section 6 C02",
+   note=NOTE_COMMON + " AVP-sequence identity is stated for the generic decode (typed classes regenerate their AVP list from attributes: C03)."),
+ "C20": dict(
+   engine="coq-codec",
+   technique="Coq proof: to_answer header/flag/class theorems for any class table + exhaustive table obligations over every Message subclass (vm_compute); exhaustive differential correspondence over classes x flag octets",
+   text=("Theorems (Props/C20.v, Link/LinkRegistry.v C20_every_library_class): for every class the library defines and every header "
+         "(all flag values, all ids) the answer has the paired answer class by the declarative rule, copies version/code/app/hop-by-hop/"
+         "end-to-end, keeps P and clears R/E/T. Class tables (MRO, subclasses, __post_init__ flag masks on all 256 octets, forced codes) are "
+         "re-introspected each run. Correspondence: every class x 16 (quick) / 256 (thorough) flag octets x boundary ids through the real "
+         "to_answer vs the Coq model; Node._generate_answer / Application.generate_answer origin/session/proxy copying by oracle."),
+   design_ref="DESIGN.md section 6 C20",
+   note=NOTE_COMMON),
  "C16": dict(
    engine="coq-conc",
    technique="Coq proof: inductive invariant over all interleavings of translated step programs + closed form of the counter; Link lemmas by reflexivity; line-level schedule replay as correspondence",
